@@ -220,6 +220,23 @@ def rule_o(F):
     return res
 
 
+def arity_param_is_fed_with_arity(F, pidx):
+    """every caller of push_call_frame passes, for parameter #pidx, a value read from an `arity` field (of the function or
+    closure object being called)"""
+    from rules.c06 import expr_leaves
+    n = 0
+    for g in F.fns:
+        if not g.hir or g.is_closure:
+            continue
+        for x in hir_walk(g.hir["body"]):
+            if x.get("k") == "call" and "vm::instr_execution::push_call_frame" in hir_callee(x):
+                n += 1
+                lv = expr_leaves(g, x["args"][pidx])
+                if not any(l.startswith("field:") and l.endswith("arity") for l in lv):
+                    return False
+    return n > 0
+
+
 def rule_f(F):
     res = []
     f = F.fn("vm::instr_execution::push_call_frame")
@@ -246,7 +263,14 @@ def rule_f(F):
                             if last in ("checked_sub", "saturating_sub", "wrapping_sub"):
                                 a0 = op_local(d[3]["args"][0])
                                 src = du.sole_def(a0) if a0 is not None else None
-                                if src is not None and src[2] == "call" and any(n.endswith("ValueStack::len") for n in callee_names(src[3]["func"])):
+                                # the subtrahend must be the arity parameter (not a constant, not another local)
+                                a1 = d[3]["args"][1] if len(d[3]["args"]) > 1 else None
+                                a1l = op_local(a1) if a1 is not None else None
+                                sub_ok = False
+                                if a1l is not None:
+                                    kind, payload = du.trace_back(a1l)
+                                    sub_ok = kind == "arg" and arity_param_is_fed_with_arity(F, payload - 1)
+                                if src is not None and src[2] == "call" and any(n.endswith("ValueStack::len") for n in callee_names(src[3]["func"])) and sub_ok:
                                     good = True
                                 break
                             if last in ("ok_or", "branch", "unwrap", "ok_or_else", "into", "try_into"):
